@@ -32,6 +32,7 @@ def config():
             v=S.fl(10.0, 200.0, 100.0),
             rho=S.fl(0.1, 2.0, 1.0),
             clear=S.logfl(-1.3, 6.0, 0.5),
+            units=S.user_units(),
         )
     )
 
@@ -61,7 +62,9 @@ def verdict(desc):
     h, b = height_for(meshes, alpha, desc["clear"])
     ns = len(meshes)
     surf_g = [aero_surface("s%d" % k, m, True, groundplane=True) for k, m in enumerate(meshes)]
-    pg = aero_direct(surf_g, fl, height=h)
+    pg = aero_direct(surf_g, fl, height=h, units=desc.get("units"))
+    if desc.get("units", {}).get("height_agl", "m") != "m":
+        out.label("height-in-" + desc["units"]["height_agl"])
     pg.run_model()
     P = "aero_point_0.aero_states."
     Fg = [pg.get_val(P + "s%d_sec_forces" % k).copy() for k in range(ns)]
@@ -107,7 +110,7 @@ def verdict(desc):
     ladder = [4.0, 16.0, 64.0, 256.0, 1e4]
     for c in ladder:
         hh, _ = height_for(meshes, alpha, c)
-        pg.set_val("height_agl", hh)
+        pg.set_val("height_agl", hh, units="m")
         pg.run_model()
         e = max(float(np.max(np.abs(pg.get_val(P + "s%d_sec_forces" % k) - Ff[k]))) for k in range(ns)) / qS
         errs.append(e)
